@@ -4,7 +4,11 @@ Lean: DinoProofs/Properties/C02.lean over the model Dino/Grid.lean (+ Dino/SH.le
 Tie: every model operator is run on the inputs given to the real `spherical_harmonic.Grid`
 (float64) and compared (1e-9): both layouts, padded fast layouts, three spacings, radii, offsets,
 both clip settings, every unit coefficient on small grids and random spectra.
-Hypotheses Hyp-A / Hyp-B of theorem `vor_div_roundtrip` are sampled on the implementation.
+Hypotheses Hyp-A / Hyp-B of theorem `vor_div_roundtrip` are sampled on the implementation, and CERTIFIED on five
+small live grids: `c02_gridcert.py` regenerates lean/DinoGen/GridCert/H*.lean from the arrays of live `Grid` objects
+(radius, recurrence weights, basis f/p/w, cos_lat as exact dyadic rationals) on every run, the Lean kernel checks the
+Hyp-A / Hyp-B residuals of every unit field of Dom (`decide +kernel`, exact rational arithmetic) and
+`Dino.C02.roundtrip_h1..h5` conclude the round-trip bound for ALL fields of Dom of those grids.
 Sentinel probes (tests, not obligations): analytic oracle (scipy `lpmv` + textbook derivative
 identities, independent of the code's recurrence weights), Laplacian and vor/div <-> wind round
 trips on the stated domain, coefficient-space identities evaluated on the real operators.
@@ -13,7 +17,7 @@ Stated domain of the round-trip / exactness probes (DESIGN §6/C02) = `Dino.C02.
   * MASKED fields (zero where `Grid.mask` is false: triangle l < |m|, row 1 and padding rows of the fast
     layout, padding columns), zero mean (column l = 0), top wavenumber empty for clip=False (k = 1, result
     compared *below* the top wavenumber), top TWO wavenumbers empty for the default clip=True (k = 2,
-    whole array compared).  `dom()` draws exactly these; every draw on a small grid is also sent to the
+    whole array compared).  `dom()` draws exactly these; every draw (on every grid) is also sent to the
     model's Boolean test `domB` (= `Dom`, theorem `domB_iff`).  Negative control: a field with one entry
     off the mask is rejected by `domB` and violates Hyp-A on the real code (`control:hypA-unmasked`), so
     the domain is pinned from both sides.
@@ -33,6 +37,7 @@ import numpy as np
 
 import common
 from common import fvec, fmat, fbits, unfvec, unfmat
+from props import c02_gridcert
 
 RTOL = 1e-9
 RULE = ('grids from a table (both implementations; fast layout with base_shape_multiple padding in '
@@ -123,19 +128,37 @@ def run(ctx: common.Ctx):
   from dinosaur import spherical_harmonic as sh
   from dinosaur import jax_numpy_utils as jnu
 
+  # translator: certificates of Hyp-A / Hyp-B on small live grids (regenerated from the real code on every run)
+  gen = None
+  try:
+    gen = c02_gridcert.generate()
+    ctx.obligation('translator:DinoGen.GridCert', 'translator', True,
+                   'regenerated (changed)' if gen['changed'] else 'regenerated (unchanged)')
+  except Exception as e:  # pylint: disable=broad-except
+    ctx.obligation('translator:DinoGen.GridCert', 'translator', False, f'{type(e).__name__}: {str(e)[:300]}')
   extra = ['DinoProofs/Lemmas/Grid.lean', 'DinoProofs/Lemmas/GridFourier.lean', 'Dino/Grid.lean',
-           'Dino/GridDrv.lean']
-  if os.path.exists(os.path.join(common.LEAN, 'DinoProofs/Lemmas/GridLinear.lean')):   # merged with fix f_C02
-    extra.append('DinoProofs/Lemmas/GridLinear.lean')
-  ctx.lean('DinoProofs.Properties.C02', 'C02.txt', extra_files=extra)
+           'Dino/GridDrv.lean', 'DinoProofs/Lemmas/GridLinear.lean', 'DinoProofs/Lemmas/GridEps.lean',
+           'Dino/GridCert.lean'] + (gen['files'] if gen is not None else [])
+  ctx.lean('DinoProofs.Properties.C02', 'C02.txt', extra_files=extra, gen_targets=['DinoGen.GridCert'])
+  if gen is not None:
+    # the arrays the kernel checked are the arrays of the code under test: the files on disk are compared, number by
+    # number, with the live `Grid` objects; and every certificate the generator emitted is indexed (hence audited)
+    ctx.corr_exact('gridcert: arrays of DinoGen/GridCert/H*.lean == arrays of the live Grid objects',
+                   dict(grids=[c[0] for c in c02_gridcert.GRIDS]), [], c02_gridcert.verify_on_disk(gen['arrays']))
+    idx = {l.strip() for l in open(os.path.join(common.LEAN, 'index', 'C02.txt'))}
+    top = [n for n in gen['names'] if '_r' not in n.rsplit('.', 1)[1]]
+    ctx.corr_exact('gridcert: every generated certificate (shape, hyp0, hyp1 per grid) is indexed in lean/index/C02.txt',
+                   dict(names=top), [], [n for n in top if n not in idx])
   ctx.assumptions.append(
       'C02 partial: the latitude-derivative recurrence is proved consistent with the Laplacian and with '
       'multiplication by sin(lat) (coefficient-space Legendre equation), not derived from a formal '
       'definition of P_l^m; T2.6 is an exact-arithmetic reduction (roundtrip_decomp) of the wind round trip '
       'to the two residuals Hyp-A / Hyp-B, with an epsilon-form (vor_div_roundtrip_eps: residuals <= eps '
-      'relative to max|laplacian psi| => round trip within 2 eps); Hyp-A/Hyp-B themselves are sampled '
-      'numerically on the real code on fields drawn from exactly Dom (masked, zero mean, top wavenumber(s) '
-      'empty), proved exactly only on the rational M = 3 instance lyT; side condition cos(lat) != 0 '
+      'relative to max|laplacian psi| => round trip within 2 eps); Hyp-A/Hyp-B themselves are kernel-checked '
+      '(exact rational arithmetic on the live arrays, all unit fields of Dom, residual <= 2^-40 each) on the five '
+      'small generated grids h1..h5 (M <= 3) only, where roundtrip_h1..h5 hold for ALL fields of Dom; on every other '
+      'grid they are sampled numerically on the real code on fields drawn from exactly Dom (masked, zero mean, top '
+      'wavenumber(s) empty); proved exactly on the rational M = 3 instance lyT; side condition cos(lat) != 0 '
       '(no nodes at the poles)')
   rng = ctx.rng
   lines, checks = [], []   # checks: (op, inp, impl_value, kind)
@@ -430,9 +453,9 @@ def run(ctx: common.Ctx):
     R, C = g.modal_shape
     ctx.expect(in_dom(g, k, x) == want, 'domain:draw',
                f'{what}: membership in Dom(k={k}) is {in_dom(g, k, x)}, wanted {want}', dict(grid=desc, k=k))
-    if R * C <= 160:
-      dom_lines.append(f'grid F dom {layout_token(g, fast)} {k} {fmat(x)}')
-      dom_checks.append((dict(grid=desc, k=k, what=what, x=x.tolist() if R * C <= 60 else what), want))
+    # every draw, on every grid, is also sent to the model's Boolean test `domB` (= `Dom`, theorem `domB_iff`)
+    dom_lines.append(f'grid F dom {layout_token(g, fast)} {k} {fmat(x)}')
+    dom_checks.append((dict(grid=desc, k=k, what=what, x=x.tolist() if R * C <= 60 else what), want))
 
   for spec in hyp_table:
     fast, M, L, nlon, nlat, spacing, radius, offset, base = spec
@@ -519,16 +542,43 @@ def run(ctx: common.Ctx):
         ctx.expect(not il[:, 0].any() and not il[:, L:].any(), 'roundtrip:laplacian',
                    'inverse_laplacian is not zero at l=0 / on the padding', dict(grid=desc))
 
-  # membership of every drawn field (small grids) in the model's `Dom` (`domB`, theorem `domB_iff`)
+  # the certified grids h1..h5: the real code's float64 round trip on random fields of Dom stays within the bound
+  # that `Dino.C02.roundtrip_h*` prove for the exact rational round trip on the same arrays (plus float64 rounding)
+  if gen is not None:
+    for a in gen['arrays']:
+      gid, fast = a['cfg'][0], a['cfg'][1]
+      g = a['grid']
+      R, C = g.modal_shape
+      L = g.total_wavenumbers
+      eps = R * C * 2.0 ** -c02_gridcert.DELTA_EXP
+      desc = dict(cert=gid, cfg=[str(t) for t in a['cfg'][1:]])
+      ctx.dist['cert-grids'] += 1
+      for c in (False, True):
+        k = 2 if c else 1
+        vor, dv = dom(g, k), dom(g, k)
+        dom_member(g, fast, k, vor, True, f'cert grid {gid} dom() draw vor', desc)
+        dom_member(g, fast, k, dv, True, f'cert grid {gid} dom() draw div', desc)
+        ctx.case(('cert-roundtrip', gid, c, vor.tobytes()), nontrivial=bool(vor.any() or dv.any()))
+        with ctx.impl('cert-roundtrip', dict(grid=desc, clip=c), 'wind conversion raised'):
+          u, v = sh.vor_div_to_uv_nodal(g, jnp.asarray(vor), jnp.asarray(dv), clip=c)
+          v2, d2 = (np.asarray(t) for t in sh.uv_nodal_to_vor_div_modal(g, u, v, clip=c))
+          B = max(np.abs(vor).max(), np.abs(dv).max())
+          err = max(np.abs(v2[:, :L - 1] - vor[:, :L - 1]).max(initial=0.0),
+                    np.abs(d2[:, :L - 1] - dv[:, :L - 1]).max(initial=0.0))
+          ctx.expect(err <= 2 * eps * B + 1e-12 * max(B, 1e-300), 'cert:roundtrip-live',
+                     f'certified grid {gid}, clip={c}: float64 round trip error {err:.3e} exceeds the certified bound '
+                     f'2*eps*B = {2 * eps * B:.3e} (eps = rows*cols*2^-{c02_gridcert.DELTA_EXP}) + rounding',
+                     dict(grid=desc, clip=c, vor=vor.tolist(), div=dv.tolist()))
+
+  # membership of every drawn field (all grids) in the model's `Dom` (`domB`, theorem `domB_iff`)
   if dom_lines:
     douts = ctx.model(dom_lines)
-    if all(o == 'bad-op' for o in douts):
-      ctx.notes.append('driver op `grid dom` not available in this lean tree (fix f_C02 not merged yet): membership of '
-                       'the drawn fields in Dom checked on the Python side only (`in_dom`)')
-    else:
-      for (inp, want), o in zip(dom_checks, douts):
-        ctx.corr_exact('Dom-membership', inp, want, o == '1')
-      ctx.dist['dom-membership-model'] += len(dom_checks)
+    for (inp, want), o in zip(dom_checks, douts):
+      if o not in ('0', '1'):
+        ctx.corr_mismatch('Dom-membership', inp, want, o, 'driver op `grid dom` did not answer 0/1')
+        continue
+      ctx.corr_exact('Dom-membership', inp, want, o == '1')
+    ctx.dist['dom-membership-model'] += len(dom_checks)
 
   # the side condition cos(lat) != 0 is violated by grids with nodes at the poles: recorded, and such grids are
   # excluded from every probe that divides by cos(lat)
@@ -680,4 +730,4 @@ def run(ctx: common.Ctx):
   ctx.notes.append('analytic oracle, Hyp-A/B sampling, round trips and coefficient-space identities are '
                    'tests on the real code (sentinel probes), not proof obligations')
   return ctx.finish(RULE, 'C02 partial: latitude recurrence proved consistent with the Laplacian, '
-                          'Hyp-A/B sampled (see assumptions)')
+                          'Hyp-A/B kernel-checked on five small live grids, sampled elsewhere (see assumptions)')
